@@ -373,7 +373,7 @@ Theorem step_nodes_viol defs dm R st batch v :
   In v (viol_step defs dm (SNodes R batch) (match snd r with 0 :: _ => true | _ => false end) st (fst r)) ->
   v = 3 \/ v = 5.
 Proof.
-  unfold step_nodes. destruct (forallb n_sig_ok (filter (requested st) batch)) eqn:Hsig; simpl.
+  unfold step_nodes. destruct (forallb n_sig_ok (filter (requested st) batch)) eqn:Hsig; cbn [fst snd viol_step negb].
   2:{ unfold unchanged. intros H. repeat (apply in_app_or in H; destruct H as [H|H]; [exfalso; eapply frame_refl; eauto|]).
       exfalso; eapply frame_refl; eauto. }
   set (acc := filter (accept_node (build_rooms defs) dm R st) (filter (requested st) batch)).
@@ -401,3 +401,334 @@ Proof.
         apply has_tag_in. unfold acc in Ha. apply filter_In in Ha. destruct Ha as [Ha _]. apply filter_In in Ha. tauto. }
       rewrite He in Hv. contradiction.
 Qed.
+
+(* ---- references ---- *)
+Lemma edge_ok_entitled defs R r st st' x v :
+  find_room (build_rooms defs) R = Some r -> edge_ok r x = true -> e_sig_ok x = true ->
+  In v (edge_entitled defs R st st' x) -> v = 1 \/ v = 4.
+Proof.
+  unfold edge_ok, edge_entitled. intros Hr Hok Hsig. destruct (e_ent x) as [en|]; [|discriminate].
+  rewrite Hsig, (can_grantedR _ _ _ _ _ _ _ Hr Hok). simpl. intros Hin. apply in_app_or in Hin. destruct Hin as [Hin|Hin].
+  - destruct (src_in_room _ _ _ _); simpl in Hin; [contradiction|]. destruct Hin as [<-|[]]. auto.
+  - destruct (find _ _) as [o|]; [|contradiction]. destruct (_ || _); simpl in Hin; [contradiction|]. destruct Hin as [<-|[]]. auto.
+Qed.
+
+Ltac kill_frames H :=
+  repeat (apply in_app_or in H; destruct H as [H|H]; [exfalso; eapply frame_refl; eauto; fail|]).
+
+Lemma unchanged_refl st v : ~ In v (unchanged st st).
+Proof.
+  unfold unchanged. intros H. kill_frames H. eapply frame_refl; eauto.
+Qed.
+
+Theorem step_edges_viol defs dm R st batch v :
+  let r := step_edges (build_rooms defs) R st batch in
+  In v (viol_step defs dm (SEdges R batch) (match snd r with 0 :: _ => true | _ => false end) st (fst r)) ->
+  v = 1 \/ v = 4.
+Proof.
+  unfold step_edges. destruct (forallb e_sig_ok batch) eqn:Hsig; cbn [fst snd viol_step negb].
+  2:{ intros H. exfalso. eapply unchanged_refl; eauto. }
+  destruct (find_room (build_rooms defs) R) as [r|] eqn:Hr; cbn [fst snd viol_step negb].
+  2:{ intros H. exfalso. eapply unchanged_refl; eauto. }
+  set (acc := filter (edge_ok r) batch).
+  unfold viol_edges. destruct (fold_put_edge_frame acc st) as [Fn [Fd Fe]]. rewrite Fn, Fd, Fe.
+  intros H. kill_frames H.
+  apply in_app_or in H. destruct H as [H|H].
+  - apply in_flat_map in H. destruct H as [x [Hx Hv]].
+    destruct (has_tag e_tag (s_edges st) (e_tag x)) eqn:Ht; [contradiction|].
+    destruct (fold_put_edge_in _ _ _ Hx) as [Hin|Hin].
+    + rewrite (has_tag_in e_tag _ _ Hin) in Ht. discriminate.
+    + unfold acc in Hin. apply filter_In in Hin. destruct Hin as [Hb Hok].
+      rewrite (has_tag_in e_tag _ _ Hb) in Hv. simpl in Hv.
+      eapply edge_ok_entitled; eauto. rewrite forallb_forall in Hsig. apply Hsig; assumption.
+  - apply in_flat_map in H. destruct H as [y [Hy Hv]].
+    destruct (fold_put_edge_keep acc st y Hy) as [Hk|[x [Hx [Hpk Ha]]]].
+    + rewrite (has_tag_in e_tag _ _ Hk) in Hv. contradiction.
+    + destruct (has_tag e_tag _ (e_tag y)); [contradiction|].
+      assert (He : existsb (fun x0 => same_edge_pk x0 y && has_tag e_tag batch (e_tag x0)) (s_edges (fold_left put_edge acc st)) = true).
+      { apply existsb_exists. exists x. split; [assumption|]. rewrite Hpk. simpl.
+        apply has_tag_in. unfold acc in Ha. apply filter_In in Ha. tauto. }
+      rewrite He in Hv. contradiction.
+Qed.
+
+(* ---- node tombstones ---- *)
+Lemma ndel_ok_entitled defs st d v :
+  ids_unique st -> ndel_ok (build_rooms defs) st d = true -> nd_sig_ok d = true ->
+  In v (ndel_entitled defs st d) -> v = 2.
+Proof.
+  unfold ndel_ok, ndel_entitled. intros Hu Hok Hsig. destruct (nd_ent d) as [en|]; [|discriminate].
+  destruct (find_room (build_rooms defs) (nd_room d)) as [r|] eqn:Hr; [|discriminate].
+  pose proof (can_grantedR _ _ _ _ _ _ _ Hr Hok) as Hg. clear Hok. rewrite Hsig.
+  destruct (find (node_hit d) (s_nodes st)) as [o|] eqn:Hf.
+  - apply find_some in Hf. destruct Hf as [Hin Hh]. unfold node_hit in Hh. apply andb_prop in Hh. destruct Hh as [_ Hid].
+    apply N.eqb_eq in Hid. unfold lookup_node in Hg. rewrite <- Hid in Hg.
+    rewrite (find_unique n_id _ _ Hu Hin) in Hg. rewrite Hg. simpl.
+    destruct (n_ent o) as [eo|]; [|contradiction]. destruct (_ || _); simpl; [contradiction|]. intros [<-|[]]. reflexivity.
+  - assert (Hs : grantedR defs (nd_room d) (nd_author d) en (nd_date d) MutateSelf = true).
+    { destruct (lookup_node st (nd_id d)); [eapply grantedR_needed; eauto|assumption]. }
+    rewrite Hs. simpl. contradiction.
+Qed.
+
+Lemma no_zero_of {l : list Z} {k : Z} : k <> 0 -> (forall v, In v l -> v = k) -> existsb (Z.eqb 0) l = false.
+Proof.
+  intros Hk H. destruct (existsb (Z.eqb 0) l) eqn:E; [|reflexivity]. apply existsb_exists in E. destruct E as [z [Hz He]].
+  apply Z.eqb_eq in He. subst z. specialize (H _ Hz). congruence.
+Qed.
+
+Theorem step_ndels_viol defs dm st batch v :
+  ids_unique st ->
+  let r := step_ndels (build_rooms defs) st batch in
+  In v (viol_step defs dm (SNDels batch) (match snd r with 0 :: _ => true | _ => false end) st (fst r)) ->
+  v = 2.
+Proof.
+  intros Hu. unfold step_ndels. destruct (forallb nd_sig_ok batch) eqn:Hsig; cbn [fst snd viol_step negb].
+  2:{ intros H. exfalso. eapply unchanged_refl; eauto. }
+  set (acc := filter (ndel_ok (build_rooms defs) st) (dedup_last batch)).
+  assert (Hacc : forall d, In d acc -> In d batch /\ ndel_ok (build_rooms defs) st d = true /\ nd_sig_ok d = true).
+  { intros d Hd. unfold acc in Hd. apply filter_In in Hd. destruct Hd as [Hd Hok]. apply dedup_last_in in Hd.
+    repeat split; try assumption. rewrite forallb_forall in Hsig. apply Hsig; assumption. }
+  unfold viol_ndels. destruct (fold_ndel_frame acc st) as [Fe Fd]. rewrite Fe, Fd.
+  intros H. kill_frames H.
+  apply in_app_or in H. destruct H as [H|H].
+  { apply in_flat_map in H. destruct H as [d [Hd Hv]].
+    destruct (has_tag nd_tag (s_ndels st) (nd_tag d)) eqn:Ht; [contradiction|].
+    destruct (fold_ndel_in _ _ _ Hd) as [Hin|Hin].
+    - rewrite (has_tag_in nd_tag _ _ Hin) in Ht. discriminate.
+    - destruct (Hacc _ Hin) as [Hb [Hok Hs]]. rewrite (has_tag_in nd_tag _ _ Hb) in Hv. simpl in Hv.
+      eapply ndel_ok_entitled; eauto. }
+  apply in_app_or in H. destruct H as [H|H].
+  { apply in_flat_map in H. destruct H as [y [Hy Hv]]. exfalso.
+    destruct (fold_ndel_keep acc st y Hy) as [Hk|[x [Hx [Hpk Ha]]]].
+    - rewrite (has_tag_in nd_tag _ _ Hk) in Hv. contradiction.
+    - destruct (has_tag nd_tag _ (nd_tag y)); [contradiction|].
+      assert (He : existsb (fun d => same_ndel_pk d y && has_tag nd_tag batch (nd_tag d)) (s_ndels (fold_left apply_ndel acc st)) = true).
+      { apply existsb_exists. exists x. split; [assumption|]. rewrite Hpk. simpl. apply has_tag_in. apply Hacc; assumption. }
+      rewrite He in Hv. contradiction. }
+  apply in_app_or in H. destruct H as [H|H].
+  { apply in_flat_map in H. destruct H as [y [Hy Hv]]. exfalso.
+    destruct (fold_ndel_nodes_keep acc st y Hy) as [Hk|[d [Hd Hh]]].
+    - rewrite (has_tag_in n_tag _ _ Hk) in Hv. contradiction.
+    - destruct (has_tag n_tag _ (n_tag y)); [contradiction|].
+      destruct (Hacc _ Hd) as [Hb [Hok Hs]].
+      assert (He : existsb (fun d0 => node_hit d0 y && negb (existsb (Z.eqb 0) (ndel_entitled defs st d0))) batch = true).
+      { apply existsb_exists. exists d. split; [assumption|]. rewrite Hh. simpl.
+        rewrite (@no_zero_of _ 2); [reflexivity|discriminate|]. intros w Hw. eapply ndel_ok_entitled; eauto. }
+      rewrite He in Hv. contradiction. }
+  { exfalso. assert (Hf : forallb (fun x => has_tag n_tag (s_nodes st) (n_tag x)) (s_nodes (fold_left apply_ndel acc st)) = true).
+    { apply forallb_forall. intros x Hx. apply has_tag_in. eapply fold_ndel_nodes_sub; eauto. }
+    rewrite Hf in H. simpl in H. contradiction. }
+Qed.
+
+(* ---- reference tombstones ---- *)
+Lemma edel_ok_entitled defs st d v :
+  edel_ok (build_rooms defs) st d = true -> ed_sig_ok d = true ->
+  In v (edel_entitled defs st d) -> v = 1.
+Proof.
+  unfold edel_ok, edel_entitled. intros Hok Hsig. destruct (ed_ent d) as [en|]; [|discriminate].
+  destruct (find_room (build_rooms defs) (ed_room d)) as [r|] eqn:Hr; [|discriminate].
+  rewrite Hsig, (can_grantedR _ _ _ _ _ _ _ Hr Hok). simpl.
+  destruct (find (edge_hit d) (s_edges st)); [|contradiction].
+  destruct (src_in_room _ _ _ _); simpl; [contradiction|]. intros [<-|[]]. reflexivity.
+Qed.
+
+Theorem step_edels_viol defs dm st batch v :
+  let r := step_edels (build_rooms defs) st batch in
+  In v (viol_step defs dm (SEDels batch) (match snd r with 0 :: _ => true | _ => false end) st (fst r)) ->
+  v = 1.
+Proof.
+  unfold step_edels. destruct (forallb ed_sig_ok batch) eqn:Hsig; cbn [fst snd viol_step negb].
+  2:{ intros H. exfalso. eapply unchanged_refl; eauto. }
+  set (acc := filter (edel_ok (build_rooms defs) st) batch).
+  assert (Hacc : forall d, In d acc -> In d batch /\ edel_ok (build_rooms defs) st d = true /\ ed_sig_ok d = true).
+  { intros d Hd. unfold acc in Hd. apply filter_In in Hd. destruct Hd as [Hd Hok].
+    repeat split; try assumption. rewrite forallb_forall in Hsig. apply Hsig; assumption. }
+  unfold viol_edels. destruct (fold_edel_frame acc st) as [Fn Fd]. rewrite Fn, Fd.
+  intros H. kill_frames H.
+  apply in_app_or in H. destruct H as [H|H].
+  { apply in_flat_map in H. destruct H as [d [Hd Hv]].
+    destruct (has_tag ed_tag (s_edels st) (ed_tag d)) eqn:Ht; [contradiction|].
+    destruct (fold_edel_in _ _ _ Hd) as [Hin|Hin].
+    - rewrite (has_tag_in ed_tag _ _ Hin) in Ht. discriminate.
+    - destruct (Hacc _ Hin) as [Hb [Hok Hs]]. rewrite (has_tag_in ed_tag _ _ Hb) in Hv. simpl in Hv.
+      eapply edel_ok_entitled; eauto. }
+  apply in_app_or in H. destruct H as [H|H].
+  { apply in_flat_map in H. destruct H as [y [Hy Hv]]. exfalso.
+    destruct (fold_edel_keep acc st y Hy) as [Hk|[x [Hx [Hpk Ha]]]].
+    - rewrite (has_tag_in ed_tag _ _ Hk) in Hv. contradiction.
+    - destruct (has_tag ed_tag _ (ed_tag y)); [contradiction|].
+      assert (He : existsb (fun d => same_edel_pk d y && has_tag ed_tag batch (ed_tag d)) (s_edels (fold_left apply_edel acc st)) = true).
+      { apply existsb_exists. exists x. split; [assumption|]. rewrite Hpk. simpl. apply has_tag_in. apply Hacc; assumption. }
+      rewrite He in Hv. contradiction. }
+  apply in_app_or in H. destruct H as [H|H].
+  { apply in_flat_map in H. destruct H as [y [Hy Hv]]. exfalso.
+    destruct (fold_edel_edges_keep acc st y Hy) as [Hk|[d [Hd Hh]]].
+    - rewrite (has_tag_in e_tag _ _ Hk) in Hv. contradiction.
+    - destruct (has_tag e_tag _ (e_tag y)); [contradiction|].
+      destruct (Hacc _ Hd) as [Hb [Hok Hs]].
+      assert (He : existsb (fun d0 => edge_hit d0 y && negb (existsb (Z.eqb 0) (edel_entitled defs st d0))) batch = true).
+      { apply existsb_exists. exists d. split; [assumption|]. rewrite Hh. simpl.
+        rewrite (@no_zero_of _ 1); [reflexivity|discriminate|]. intros w Hw. eapply edel_ok_entitled; eauto. }
+      rewrite He in Hv. contradiction. }
+  { exfalso. assert (Hf : forallb (fun x => has_tag e_tag (s_edges st) (e_tag x)) (s_edges (fold_left apply_edel acc st)) = true).
+    { apply forallb_forall. intros x Hx. apply has_tag_in. eapply fold_edel_edges_sub; eauto. }
+    rewrite Hf in H. simpl in H. contradiction. }
+Qed.
+
+(* ------------------------------------------------------------------ any sequence of calls *)
+Definition known_kind (v : Z) : Prop := v = 1 \/ v = 2 \/ v = 3 \/ v = 4 \/ v = 5.
+Definition status_ok (a : list Z) : bool := match a with 0 :: _ => true | _ => false end.
+Definition observed (rs : list (store * list Z)) : list (bool * store) :=
+  map (fun r => (status_ok (snd r), fst r)) rs.
+
+Lemma do_step_viol defs dm st s v :
+  ids_unique st ->
+  let r := do_step (build_rooms defs) dm st s in
+  In v (viol_step defs dm s (status_ok (snd r)) st (fst r)) -> known_kind v.
+Proof.
+  intros Hu. unfold known_kind, status_ok. destruct s as [R b|R b|b|b]; cbn [do_step]; intros H.
+  - destruct (step_nodes_viol defs dm R st b v H); auto.
+  - destruct (step_edges_viol defs dm R st b v H); auto.
+  - pose proof (step_ndels_viol defs dm st b v Hu H). auto.
+  - pose proof (step_edels_viol defs dm st b v H). auto.
+Qed.
+
+Theorem model_violations_known defs dm : forall ss st v,
+  ids_unique st ->
+  In v (viol_steps defs dm st ss (observed (run_steps (build_rooms defs) dm st ss))) -> known_kind v.
+Proof.
+  induction ss as [|s tl IH]; intros st v Hu H; [contradiction|].
+  cbn [run_steps observed map viol_steps] in H. apply in_app_or in H. destruct H as [H|H].
+  - eapply do_step_viol; eauto.
+  - eapply IH; [|exact H]. apply ids_unique_step; assumption.
+Qed.
+
+(* a call that fails as a whole leaves the four tables as they were *)
+Theorem failed_call_changes_nothing rooms dm st s :
+  status_ok (snd (do_step rooms dm st s)) = false -> fst (do_step rooms dm st s) = st.
+Proof.
+  destruct s as [R b|R b|b|b]; cbn [do_step].
+  - unfold step_nodes. destruct (forallb _ _); [discriminate|reflexivity].
+  - unfold step_edges. destruct (forallb _ _); [|reflexivity]. destruct (find_room rooms R); [discriminate|reflexivity].
+  - unfold step_ndels. destruct (forallb _ _); [discriminate|reflexivity].
+  - unfold step_edels. destruct (forallb _ _); [discriminate|reflexivity].
+Qed.
+
+(* the verdict on one row depends on that row, the room definitions, the data model and the stored
+   row of the same id only: not on the rest of the batch, not on other stored rows *)
+Theorem node_verdict_local rooms dm R st st' x :
+  lookup_node st (n_id x) = lookup_node st' (n_id x) ->
+  requested st x = requested st' x /\ accept_node rooms dm R st x = accept_node rooms dm R st' x.
+Proof. unfold requested, accept_node. intros ->. split; reflexivity. Qed.
+
+Theorem edge_verdict_local r x : forall b1 b2 : list redge, edge_ok r x = edge_ok r x.
+Proof. reflexivity. Qed.
+
+(* a rejected row leaves no trace: rows of a node batch that are requested but refused are not
+   among the stored rows afterwards unless they were stored before *)
+Theorem rejected_node_not_stored rooms dm R st batch x :
+  accept_node rooms dm R st x = false ->
+  (forall y, In y batch -> n_tag y = n_tag x -> y = x) ->
+  In x (s_nodes (fst (step_nodes rooms dm R st batch))) -> In x (s_nodes st).
+Proof.
+  intros Hrej _. unfold step_nodes. destruct (forallb _ _); simpl; [|auto]. intros H.
+  destruct (fold_put_node_in _ _ _ H) as [H1|H1]; [assumption|].
+  apply filter_In in H1. destruct H1 as [_ H1]. congruence.
+Qed.
+
+(* outside the delimited classes the property holds on the model: if the violations the oracle finds
+   on the model's run lie in no known class, there are none *)
+Lemma dedupz_nil l : dedupz l = [] -> l = [].
+Proof.
+  induction l as [|h t IH]; simpl; [reflexivity|]. destruct (existsb (Z.eqb h) t) eqn:E; [|discriminate].
+  intros H. apply IH in H. subst t. discriminate.
+Qed.
+Theorem model_outside_known defs dm ss st :
+  ids_unique st ->
+  classes_of (viol_steps defs dm st ss (observed (run_steps (build_rooms defs) dm st ss))) = [] ->
+  viol_steps defs dm st ss (observed (run_steps (build_rooms defs) dm st ss)) = [].
+Proof.
+  intros Hu. unfold classes_of.
+  set (v := viol_steps defs dm st ss (observed (run_steps (build_rooms defs) dm st ss))).
+  assert (Hk : forallb (fun k => Z.ltb 0 k) v = true).
+  { apply forallb_forall. intros k Hin. destruct (model_violations_known defs dm ss st k Hu Hin) as [H|[H|[H|[H|H]]]]; subst k; reflexivity. }
+  rewrite Hk. apply dedupz_nil.
+Qed.
+
+(* ------------------------------------------------------------------ closed witnesses *)
+Local Open Scope N_scope.
+Definition fs_w : list field := [{| f_short := 32%N; f_type := TString; f_nullable := false; f_default := false |}].
+Definition dm_w : dmodel := [(1%N, fs_w); (2%N, fs_w)].
+Definition member_w (g : uid) (k : key) (e : entity) (s a : bool) : list event :=
+  [EvGroup g; EvUser g k 10%Z true; EvRight g e 10%Z s a].
+Definition node_w (tag id : N) (room : uid) (ent : entity) (j : option json) (mdate : Z) (author : key) : rnode :=
+  {| n_tag := tag; n_id := id; n_room := Some room; n_ent := Some ent; n_json := j; n_mdate := mdate;
+     n_author := author; n_sig := tag; n_sig_ok := true; n_too_big := false |}.
+Definition good_w : option json := Some [(32%N, JStr false)].
+Definition edge_w (tag src : N) (ent : entity) (dest : N) (cdate : Z) (author : key) : redge :=
+  {| e_tag := tag; e_src := src; e_ent := Some ent; e_label := 1%N; e_dest := dest; e_cdate := cdate; e_author := author; e_sig_ok := true |}.
+Definition st_w (ns : list rnode) (es : list redge) : store := {| s_nodes := ns; s_edges := es; s_ndels := []; s_edels := [] |}.
+
+(* K1: key 2 may write E1 rows in room 2 only; it attaches a reference to a row of room 1 *)
+Definition w_K1 : c02case :=
+  CIngest [(1%N, member_w 1 1 0 true true); (2%N, member_w 1 2 1 true false)] dm_w
+    (st_w [node_w 1 100 1 1 good_w 20 1; node_w 2 101 1 2 good_w 20 1] [])
+    [SEdges 2%N [edge_w 3 100 1 101 30 2]].
+(* K1, tombstone side: key 2 (all-rows right in room 2) removes a reference of a row of room 1 *)
+Definition w_K1b : c02case :=
+  CIngest [(1%N, member_w 1 1 0 true true); (2%N, member_w 1 2 1 true true)] dm_w
+    (st_w [node_w 1 100 1 1 good_w 20 1; node_w 2 101 1 2 good_w 20 1] [edge_w 3 100 1 101 20 1])
+    [SEDels [{| ed_tag := 4%N; ed_room := 2%N; ed_src := 100%N; ed_ent := Some 1%N; ed_label := 1%N; ed_dest := 101%N;
+                ed_cdate := 20; ed_date := 30; ed_author := 2%N; ed_sig_ok := true |}]].
+(* K2: key 2 has rights on E2 only; its tombstone names E2 for the E1 row of key 1 *)
+Definition w_K2 : c02case :=
+  CIngest [(1%N, member_w 1 1 1 true true ++ member_w 2 2 2 true true)] dm_w
+    (st_w [node_w 1 100 1 1 good_w 20 1] [])
+    [SNDels [{| nd_tag := 2%N; nd_room := 1%N; nd_id := 100%N; nd_ent := Some 2%N; nd_mdate := 20; nd_date := 30;
+                nd_author := 2%N; nd_sig_ok := true |}]].
+(* K3: key 2 has rights on E2 only and replaces the E1 row of key 1 by an E2 row *)
+Definition w_K3 : c02case :=
+  CIngest [(1%N, member_w 1 1 1 true true ++ member_w 2 2 2 true true)] dm_w
+    (st_w [node_w 1 100 1 1 good_w 20 1] [])
+    [SNodes 1%N [node_w 2 100 1 2 good_w 30 2]].
+(* K4: key 2 has the own-rows right only and replaces the reference written by key 1 *)
+Definition w_K4 : c02case :=
+  CIngest [(1%N, member_w 1 1 1 true true ++ member_w 2 2 1 true false)] dm_w
+    (st_w [node_w 1 100 1 1 good_w 20 1; node_w 2 101 1 2 good_w 20 1] [edge_w 3 100 1 101 20 1])
+    [SEdges 1%N [edge_w 4 100 1 101 30 2]].
+(* K5: a row without JSON content although `name` is required *)
+Definition w_K5 : c02case :=
+  CIngest [(1%N, member_w 1 1 1 true false)] dm_w (st_w [] []) [SNodes 1%N [node_w 1 100 1 1 None 20 1]].
+(* an honest exchange: tombstone, new version, new row, reference: all stored, no violation *)
+Definition w_ok : c02case :=
+  CIngest [(1%N, member_w 1 1 0 true true ++ member_w 2 2 0 true false)] dm_w
+    (st_w [node_w 1 100 1 1 good_w 20 2; node_w 2 101 1 2 good_w 20 2] [edge_w 3 100 1 101 20 2])
+    [SEDels [{| ed_tag := 4%N; ed_room := 1%N; ed_src := 100%N; ed_ent := Some 1%N; ed_label := 1%N; ed_dest := 101%N;
+                ed_cdate := 20; ed_date := 25; ed_author := 2%N; ed_sig_ok := true |}];
+     SNDels [{| nd_tag := 5%N; nd_room := 1%N; nd_id := 101%N; nd_ent := Some 2%N; nd_mdate := 20; nd_date := 26;
+                nd_author := 2%N; nd_sig_ok := true |}];
+     SNodes 1%N [node_w 6 100 1 1 good_w 27 2; node_w 7 102 1 2 good_w 27 1];
+     SEdges 1%N [edge_w 8 100 1 102 27 2];
+     (* refused: key 2 has no all-rows right for the row of key 1; key 3 is no member *)
+     SNodes 1%N [node_w 9 102 1 2 good_w 28 2; node_w 10 103 1 1 good_w 28 3]].
+
+Example witnesses :
+  violations w_K1 (run_C02 w_K1) = [1%Z] /\ violations w_K1b (run_C02 w_K1b) = [1%Z] /\
+  violations w_K2 (run_C02 w_K2) = [2%Z] /\ violations w_K3 (run_C02 w_K3) = [3%Z] /\
+  violations w_K4 (run_C02 w_K4) = [4%Z] /\ violations w_K5 (run_C02 w_K5) = [5%Z].
+Proof. repeat split; vm_compute; reflexivity. Qed.
+
+Example witness_classes :
+  known_C02 w_K1 = [1%Z] /\ known_C02 w_K2 = [2%Z] /\ known_C02 w_K3 = [3%Z] /\ known_C02 w_K4 = [4%Z] /\ known_C02 w_K5 = [5%Z].
+Proof. repeat split; vm_compute; reflexivity. Qed.
+
+(* non-vacuity: the honest exchange is stored (tables: 3 rows, 1 reference, 2 tombstones at the end),
+   its refused rows are reported, and the oracle finds nothing *)
+Example honest_exchange :
+  spec_C02 w_ok (run_C02 w_ok) = true /\ known_C02 w_ok = [] /\
+  run_C02 w_ok = ([2; 1; 2; 1; 3; 0; 0;
+                  0; 2; 1; 2; 0; 0; 1; 4;
+                  0; 1; 1; 0; 1; 5; 1; 4;
+                  0; 0; 2; 6; 7; 0; 1; 5; 1; 4;
+                  0; 0; 2; 6; 7; 1; 8; 1; 5; 1; 4;
+                  0; 2; 102; 103; 2; 6; 7; 1; 8; 1; 5; 1; 4])%Z.
+Proof. repeat split; vm_compute; reflexivity. Qed.
